@@ -232,6 +232,7 @@ type TBSpec struct {
 	Signals []TBSignal // one mrp incarnation per entry, then a final uninterrupted one
 	Strict  string
 	Timeout time.Duration
+	Retries int // --autoretry
 }
 
 type TBIncarnation struct {
@@ -273,6 +274,7 @@ func (e *TBEnv) Run(spec *TBSpec, rng *rand.Rand) *TBResult {
 		if spec.Strict != "" {
 			args = append(args, "--strict="+spec.Strict)
 		}
+		args = append(args, fmt.Sprintf("--autoretry=%d", spec.Retries))
 		cmd := exec.Command(e.Mrp, args...)
 		cmd.Dir = dir
 		cmd.Env = append(os.Environ(), "VERIF_TB_MRO="+mro, "VERIF_TB_CTL="+ctlPath, "VERIF_TB_LOG="+logPath,
@@ -323,6 +325,18 @@ func (e *TBEnv) Run(spec *TBSpec, rng *rand.Rand) *TBResult {
 		}
 		if cmd.ProcessState != nil {
 			inc.ExitCode = cmd.ProcessState.ExitCode()
+		}
+		// jobs of a dead mrp die with it (pdeathsig); wait until its process group is empty so
+		// that the next incarnation does not race with dying orphans
+		pgid := cmd.Process.Pid
+		for i := 0; i < 100; i++ {
+			if err := syscall.Kill(-pgid, 0); err != nil {
+				break
+			}
+			if i == 60 {
+				syscall.Kill(-pgid, syscall.SIGKILL)
+			}
+			time.Sleep(50 * time.Millisecond)
 		}
 		o := out.String()
 		if len(o) > 4000 {
